@@ -92,6 +92,45 @@
             }
             if !found.is_empty() { break; }
         }
+        // Buffer::push with the real serializer: value sizes around a page boundary (the 36-byte header and the 16 bytes
+        // of key + length prefix push the entry into the next page), each followed by a small entry; then the entries
+        // are decoded from the recorded positions
+        if found.is_empty() {
+            use crate::serde::EntryDeserializer;
+            const MAX_ENTRY: usize = 16 * 1024;
+            'sizes: for total in [PAGE - 1, PAGE, PAGE + 1, PAGE + 8, PAGE + 36, 2 * PAGE, 2 * PAGE + 20, MAX_ENTRY, MAX_ENTRY + 1] {
+                let vlen = total - EntryHeader::serialized_len() - 16;
+                let v1: Vec<u8> = (0..vlen).map(|i| i as u8).collect();
+                let v2 = vec![2u8; 1000];
+                let mut buffer = Buffer::new(IoSliceMut::new(64 * 1024), MAX_ENTRY, Arc::new(Metrics::noop()));
+                let ok1 = buffer.push(&1u64, &v1, 1, Compression::None, 1);
+                if ok1 != (total <= MAX_ENTRY) {
+                    found.push(format!("WITNESS oversize_entry_is_refused_whole :: Buffer(max_entry_size={MAX_ENTRY}).push of an entry of {total} bytes (header+key+value) returned {ok1}"));
+                    break 'sizes;
+                }
+                let _ = buffer.push(&2u64, &v2, 2, Compression::None, 2);
+                let (buf, infos) = buffer.finish();
+                let mut end = 0usize;
+                for (info, (k, v)) in infos.iter().zip([(1u64, &v1), (2u64, &v2)].into_iter().skip(if ok1 { 0 } else { 1 })) {
+                    if info.offset < end {
+                        found.push(format!("WITNESS recorded_length_is_header_plus_key_plus_value_and_the_buffer_advances_by_its_aligned_length :: push(entry of {total} bytes); push(1 KB entry): the second entry is recorded at offset {} but the first one needs {} bytes", info.offset, end));
+                        break 'sizes;
+                    }
+                    end = info.offset + bits::align_up(PAGE, info.len);
+                    let slice = &buf[info.offset..info.offset + info.len];
+                    let decoded = EntryHeader::read(&slice[..EntryHeader::serialized_len()]).and_then(|h| {
+                        EntryDeserializer::deserialize::<u64, Vec<u8>>(&slice[EntryHeader::serialized_len()..], h.key_len as _, h.value_len as _, h.compression, Some(h.checksum))
+                    });
+                    match decoded {
+                        Ok((key, value)) if key == k && &value == v => {}
+                        other => {
+                            found.push(format!("WITNESS header_records_lengths_checksum_over_exactly_value_and_key_bytes_hash_sequence_compression :: push(entry of {total} bytes); push(1 KB entry): entry of key {k} does not decode from its recorded position: {:?}", other.map(|(k, v)| (k, v.len())).map_err(|e| e.to_string())));
+                            break 'sizes;
+                        }
+                    }
+                }
+            }
+        }
         let mut rng = Lcg(seed.wrapping_add(7));
         let mut round = 0;
         while found.is_empty() && round < 300 {
